@@ -503,6 +503,13 @@ func effectPrograms() []string {
 	return ps
 }
 
+var optionalPrograms = []string{
+	`[mb] == [mb2]`, `[mb] != [mb2]`, `[mb2] == [mb]`, `["k": mb] == ["k": mb2]`, `{x: mb} == {x: mb2}`, `om == om2`, `om != om2`,
+	`[om] == [om2]`, `[om.p] == [om2.p]`, `[ms] == [ms]`, `[[mb], [mb2]] == [[mb2], [mb]]`, `len(union([mb], [mb2]))`, `len(intersect([mb], [mb2]))`,
+	`len(diff([mb, mb2], [mb]))`, `string([mb, mb2])`, `string(om) + string(om2)`, `get(mb, 0) == get(mb2, 0)`, `get(om.p, "") == get(om2.p, "")`,
+	`if(b1, mb, mb2)`, `[mb, mb2][1]`, `get([mb], 0, mb2)`, `isset(["k": mb], "k")`, `["a": mb, "b": mb2]["b"]`, `{p: mb, q: mb2}.q`,
+}
+
 func init() {
 	register(&Stream{
 		Name: "eval",
@@ -519,6 +526,15 @@ func init() {
 			cs = append(cs, specialCases()...)
 			for _, p := range effectPrograms() {
 				cs = append(cs, evalCases(eng, envFamily, vals, p, "prog:effects")...)
+			}
+			// optionals that are never consumed: equality, containers, set functions and string
+			// conversion over present and absent values of one optional type (several draws, so
+			// that present / absent, absent / present, both and neither all occur)
+			for draw := 0; draw < 8; draw++ {
+				ovals := genVals(r, envFamily)
+				for _, p := range optionalPrograms {
+					cs = append(cs, evalCases(eng, envFamily, ovals, p, "prog:optionals")...)
+				}
 			}
 			for i := 0; i < n; i++ {
 				if i%20 == 0 {
